@@ -299,6 +299,25 @@ def run(ck, facts):
     ck.expect(os_keys == set_keys and len(set_keys) >= 2, "R3", "SharedConfig/overrides_shared-keys", str(sorted(os_keys)),
               "overrides_shared recognises %s while SharedConfig::set understands %s: a language-scoped `%s` never reaches the override table and is silently ignored" %
               (sorted(os_keys), sorted(set_keys), "kotlin." + (sorted(set_keys - os_keys) or ["?"])[0]), C.loc(osf))
+    # a language-scoped override, once read from any source, stays until get_overridden applies it: the override table only grows (insert overwrites the same
+    # scoped key with a later source's value; nothing a later source says about the *shared* key may take a scoped one away)
+    shrink = []
+    nins = 0
+    for f_ in tool.fn_list:
+        if "hir" not in f_ or f_.get("dk") == "Closure" and False:
+            continue
+        for x in C.walk(C.fn_body(f_)) if "hir" in f_ else []:
+            if x.get("k") == "mcall" and any(y.get("k") == "field" and y.get("n") == "language_overrides" for y in C.walk(x["recv"])):
+                if x.get("m") in ("retain", "remove", "remove_entry", "clear", "drain", "extract_if", "retain_mut", "take"):
+                    shrink.append((f_, x))
+                elif x.get("m") == "insert":
+                    nins += 1
+            if x.get("k") == "assign" and C.strip(x["l"]).get("k") == "field" and C.strip(x["l"]).get("n") == "language_overrides":
+                shrink.append((f_, x))
+    ck.expect(not shrink and nins >= 1, "R3", "language_overrides/only-grows", "%d inserts, nothing removes" % nins, "%s the language override table in %s: a `<lang>.<key>` read from a weaker source "
+              "(config.toml, --config) is dropped when a later source sets the un-scoped key, so the scoped key no longer wins for that language" %
+              ("`.%s(..)` shrinks" % shrink[0][1].get("m") if shrink and shrink[0][1].get("k") == "mcall" else "an assignment replaces", shrink[0][0]["name"] if shrink else "?"),
+              C.loc(shrink[0][0], shrink[0][1].get("ln")) if shrink else None)
     go = tool.fn("config::Config::get_overridden")
     gb = C.fn_body(go)
     def is_prefix_fmt(m_):
